@@ -134,6 +134,9 @@ func (bs *baseServer) ComputePath(options config.AttachOptionsInterface) string 
 			// normalize path
 			path += "/"
 		}
+	} else {
+		// no attach options: the trailing slash is added by default
+		path += "/"
 	}
 
 	return path
